@@ -31,12 +31,14 @@ def gen_cases(ctx, scale=1.0):
     return cases
 
 
-def evaluate(ctx, drv, cases):
+def evaluate(ctx, drv, cases, optimized=False):
     vidx = [i for i, c in enumerate(cases) if c03.needs_c02(c)]
     c02 = drv.run([{'op': 'c02.verify', 'L': cases[i]['L'], 'sizes': cases[i]['sizes'], 'disk': cases[i]['disk'],
-                    'flips': cases[i]['flips'], 'single': False, 'pathIsDir': True} for i in vidx])
+                    'flips': c03.model_flips(cases[i]), 'single': False, 'pathIsDir': True} for i in vidx])
     c02by = dict(zip(vidx, c02))
-    results = common.pmap(c03._run_chunk, common.split(cases, common.NPROC * 4))
+    # optimized=True: the same cases in child interpreters started with -O (assert statements compiled away)
+    results = common.pmap(c03._run_chunk_opt if optimized else c03._run_chunk,
+                          common.split(cases, common.NPROC if optimized else common.NPROC * 4))
     flat = [x for chunk in results for x in chunk]
     reqs = []
     for i, (c, obs) in enumerate(flat):
@@ -53,11 +55,15 @@ def evaluate(ctx, drv, cases):
     for i, ((c, obs), rep) in enumerate(zip(flat, replies)):
         case = {k: c[k] for k in ('mode', 'L', 'sizes', 'paths', 'cseed', 'threads', 'disk', 'flips', 'cb',
                                   'interval', 'strategy', 'max_steps')}
+        if c.get('patches'):
+            case['patches'] = c['patches']
         total = obs['total']
         ctx.case(key=json.dumps(case, sort_keys=True),
                  nontrivial=total >= 3 and (c['interval'] > 0 or any(d != 'ok' for d in c['disk']) or
-                                            bool(c['flips']) or c['threads'] >= 2),
-                 kind=f"{c['mode']}/interval={c['interval']}/N{c['threads']}")
+                                            bool(c['flips']) or bool(c.get('patches')) or c['threads'] >= 2),
+                 kind=f"{c['mode']}/interval={c['interval']}/N{c['threads']}" + ('/python -O' if optimized else ''))
+        if optimized:
+            case['python'] = '-O' 
         ctx.sample({'case': case, 'calls': [(cl['done'], cl.get('piece'), (cl.get('exc') or {}).get('kind'))
                                             for cl in obs['calls']][:12]}, limit=3)
         if obs['outcome'] != 'done':
@@ -155,8 +161,11 @@ def run(ctx, drv):
         'as C03; the clock is the shim\'s virtual clock (multiples of 1/8 s, never decreasing)',
         'the user callback is passive (cancellation: C04); one interval-gate evaluation per collected result',
         'the mode-mismatch report issued before the pipeline starts (done = 0) is outside "during hashing and verification"',
+        'a tenth of the cases is repeated in child interpreters started with `python -O` (assert statements compiled away)',
     ]
     evaluate(ctx, drv, gen_cases(ctx))
+    if not ctx.violations:
+        evaluate(ctx, drv, gen_cases(ctx, scale=0.1), optimized=True)
 
 
 def search(ctx, drv):
@@ -164,6 +173,7 @@ def search(ctx, drv):
 
 
 def replay(ctx, drv, rp):
-    evaluate(ctx, drv, [dict(rp['case'])])
+    c = dict(rp['case'])
+    evaluate(ctx, drv, [c], optimized=c.pop('python', None) == '-O')
     return {'fails': bool(ctx.violations or ctx.corr_breaks), 'violations': ctx.violations,
             'corr_breaks': ctx.corr_breaks}
